@@ -205,6 +205,23 @@ def e2e(ctx):
                        "reproduce": "printf BYTES | %s %s record  with FUV_RECORD set" % (fw.XARGS, fw.FUV)})
 
 
+def echo_bytes(ctx):
+    """ "every other byte reaches the command unchanged" when the command is the built-in echo too: with -0 / -d and no command the
+    arguments are written as they are, separated by blanks"""
+    rng = ctx.rng
+    pool = [0x61, 0x62, 0x27, 0x22, 0x5C, 0xC3, 0xA9, 0xFF, 0xFE, 0x80, 0x09]
+    for k in range(30 if ctx.thorough else 8):
+        fields = [bytes(rng.choices(pool, k=rng.randint(1, 6))) for _ in range(rng.randint(1, 4))]
+        for opt, sep in ((["-0"], b"\0"), (["-d", "\\n"], b"\n")):
+            p = subprocess.run([fw.XARGS] + opt, input=sep.join(fields) + sep, stdout=subprocess.PIPE, stderr=subprocess.PIPE, timeout=60)
+            ctx.count(("echo", tuple(opt), tuple(fields)), True, "built-in-echo")
+            if p.returncode != 0 or p.stdout != b" ".join(fields) + b"\n":
+                ctx.violation("xargs %s (no command) wrote %r for the arguments %r (exit %d)" % (" ".join(opt), p.stdout, fields, p.returncode),
+                              {"property": "C05", "kind": "built-in-echo", "options": opt, "arguments": [fw.hexs(f) for f in fields],
+                               "output": fw.hexs(p.stdout), "expected": fw.hexs(b" ".join(fields) + b"\n"), "exit": p.returncode})
+                return
+
+
 def run(ctx):
     cases = gen_cases(ctx)
     bad = compare(ctx, cases)
@@ -215,6 +232,7 @@ def run(ctx):
                      % (5 if ctx.thorough else 3, "" if ctx.thorough else "; length 4 sampled"))
     report(ctx, bad)
     e2e(ctx)
+    echo_bytes(ctx)
 
 
 def replay(ctx, rep):
